@@ -1,16 +1,16 @@
 SPECIFICATION MCSpec
 CONSTANTS QEmptyDel = FALSE
           QEager = FALSE
-          QReplayRange = FALSE
-          Keys <- KeysA
+          QReplayRange = TRUE
+          Keys <- KeysS
           Vals <- ValsB
           IterPrefixes <- PrefA
           MaxBatch = 2
-          BatchBounds <- BoundsS
+          BatchBounds <- BoundsS2
           DirectWithBatch = 1
           IterWithBatch = 1
-INVARIANTS TypeOK IterSorted HalfOpen ValueSizeExact
-PROPERTIES BufferingInvisible IterStable
+INVARIANTS TypeOK IterSorted
 CONSTRAINT Bounded
+ACTION_CONSTRAINT Edge
 VIEW View
 CHECK_DEADLOCK FALSE
